@@ -22,9 +22,13 @@
 //!                  is open and a local write then fails; the agent replaces the connection without
 //!                  any notification having passed through the downlink; the fold restarts there.
 //!  * `illegal`   – arbitrary sequences: absence of panics and hangs only.
+//!  * `input-failure`, `write-pressure` – see `extend.rs`: the input of a downlink fails (closed,
+//!                  corrupt frame) on both implementations; the consumer of the output is slow, stalls,
+//!                  and the downlink is stopped / loses its handle / loses the reader.
 
 mod client;
 mod drive;
+mod extend;
 mod hosted;
 mod reference;
 mod script;
@@ -34,6 +38,7 @@ use std::sync::Mutex;
 
 use common::{json, CaseOut, Json, Rng, Session};
 
+use crate::client::Env;
 use crate::drive::{CutMode, ImplObs};
 use crate::hosted::{Loss, Reconnect};
 use crate::reference::{check, show_trace, well_behaved, Cb, CheckInput, Finding, Mode, Stats};
@@ -525,8 +530,16 @@ fn illegality(steps: &[Step], kind: Kind) -> Vec<&'static str> {
 fn illegal_case(case: u64, rng: &mut Rng, out: &mut CaseOut) {
     let flags = Flags::of_index(case % 4);
     let mut uniq = Uniq::new(1000);
-    let vs = gen_illegal(rng, Kind::Value, &mut uniq);
-    let ms = gen_illegal(rng, Kind::Map, &mut uniq);
+    let mut vs = gen_illegal(rng, Kind::Value, &mut uniq);
+    let mut ms = gen_illegal(rng, Kind::Map, &mut uniq);
+    // One case in six: the local handles are dropped somewhere, so that the rest of the arbitrary
+    // sequence meets the client tasks in their read-only loop (and hosted downlinks whose write
+    // stream has ended).
+    if (case / 12) % 6 == 5 {
+        vs = with_handle_drop(rng, vs, &flags).0;
+        ms = with_handle_drop(rng, ms, &flags).0;
+        out.count("illegal/handle-dropped-on-the-way");
+    }
     let merged = index_merged(merge(rng, &vs, &ms));
     let cs = CaseScripts { flags, vs, ms, merged };
     out.sig(&(flags, &cs.vs, &cs.ms));
@@ -723,6 +736,15 @@ fn writer_failure_case(case: u64, rng: &mut Rng, out: &mut CaseOut) {
     let other_kind = if lost == Kind::Map { Kind::Value } else { Kind::Map };
     let other = gen_legal(rng, other_kind, &mut uniq, &GenOpts { local_writes: false, ..opts });
     let trigger = gen_local_op(rng, &mut uniq, lost);
+    // One case in four: the consumer does not go away *before* the write but in the middle of it
+    // (small output channel, stalled consumer, one to three writes pending, then the consumer
+    // goes): it is the pending write / flush that fails, not the next one.
+    let during_write = (case / 16) % 4 == 3;
+    // One in eight of those: the downlink's own write buffer (8 KiB) is full as well, so that it is
+    // the readiness check of the sink that fails, with a value / operations still held back.
+    let buffer_full = during_write && (case / 64) % 8 == 7;
+    let fill: Option<(u64, u32)> = if buffer_full { Some(if lost == Kind::Value { (10_000_000_000_000_000_000, 330) } else { (10_000_000_000_000_001_000, 230) }) } else { None };
+    let pending: Vec<LocalOp> = if during_write { (0..rng.range(0, 2)).map(|_| gen_local_op(rng, &mut uniq, lost)).collect() } else { vec![] };
     let mut lost_script = a.clone();
     lost_script.extend(b.iter().cloned());
     let (vs, ms) = if lost == Kind::Value { (lost_script.clone(), other.clone()) } else { (other.clone(), lost_script.clone()) };
@@ -733,15 +755,16 @@ fn writer_failure_case(case: u64, rng: &mut Rng, out: &mut CaseOut) {
     let phase = *phases(&a, &flags).last().unwrap_or(&"before-link");
     let ctx = json!({"flags": flags.json(), "lost": lost.name(), "script_before_failure": show_script(&a), "failing_local_write": trigger.show(),
                      "script_on_new_connection": show_script(&b), "other": show_script(&other)});
-    let (obs, extra) = hosted::run_hosted(
-        flags,
-        &merged,
-        vs.len(),
-        ms.len(),
-        CutMode::HeaderOnly,
-        &mut drive_rng.clone(),
-        &[Reconnect { at, kind: lost, loss: Loss::OutputFault(trigger.clone()) }],
-    );
+    let (loss, env) = if during_write {
+        let mut ops: Vec<LocalOp> = fill.map_or(vec![], |(first, n)| (0..n).map(|i| drive::fill_op(lost, first, i)).collect());
+        ops.extend(pending.iter().cloned());
+        ops.push(trigger.clone());
+        (Loss::OutputFaultDuringWrite(ops), Env { out_cap: Some(*rng.pick(&[2usize, 4, 7])), out_stalled: false })
+    } else {
+        (Loss::OutputFault(trigger.clone()), Env::default())
+    };
+    out.count(&format!("writer-failure/consumer-gone={}", if buffer_full { "during-the-write+buffer-full" } else if during_write { "during-the-write" } else { "before-the-write" }));
+    let (obs, extra) = hosted::run_hosted_in(flags, &merged, vs.len(), ms.len(), CutMode::HeaderOnly, &mut drive_rng.clone(), &[Reconnect { at, kind: lost, loss }], &env);
     report_problems(out, Imp::Hosted, flags, &obs, true, &ctx);
     if out.inconclusive.is_some() {
         return;
@@ -777,8 +800,14 @@ fn writer_failure_case(case: u64, rng: &mut Rng, out: &mut CaseOut) {
     // restart of the fold and B. Without a new connection nothing more can reach the downlink.
     let mut effective = a.clone();
     let mut marks: Vec<Option<(usize, usize)>> = obs.marks.of(lost)[..a.len()].to_vec();
-    effective.push(Step::Local(trigger.clone()));
-    marks.push(None);
+    if let Some((first, n)) = fill {
+        effective.push(Step::LocalFill { first, n });
+        marks.push(None);
+    }
+    for op in pending.iter().chain(std::iter::once(&trigger)) {
+        effective.push(Step::Local(op.clone()));
+        marks.push(None);
+    }
     if reconnected {
         effective.push(Step::Reconnected);
         marks.push(None);
@@ -902,6 +931,27 @@ fn main() {
         cases,
         illegal_case,
     );
+
+    let cases = s.args.budget(12_000, 300_000);
+    s.part(
+        "input-failure",
+        "one case = a value and a map script; in one or both the legal prefix A (cut evenly over the phases before `linked`, linked but not synced, synced, between links, after a terminating unlinked; one case in six with the local handle dropped earlier) is followed by a failure of the downlink's input - channel closed, a frame with an unknown tag, an event frame with an undecodable body, an event frame cut off by the end of the stream - and a legal script B; the same bytes go to the client tasks (value, event, map) and to the agent-hosted downlinks (B is delivered on the connection the agent asks for next, if it does). Oracle: A is judged as in `legal` on both implementations with equal logs; at the fault at most one on_unlinked / on_failed; afterwards nothing without a new connection, and with one the fold restarts (first on_set without previous value, maps empty, events before the new `synced` suppressed unless enabled); the untouched downlink conforms as usual; tasks end, the agent survives. Which callback reports the fault, the task result and whether the agent reconnects are counted only. Non-trivial when the fault was executed on both implementations and callbacks were compared; distinct by hash of flags and scripts",
+        false,
+        cases,
+        extend::input_failure_case,
+    );
+
+    let cases = s.args.budget(8_000, 200_000);
+    s.part(
+        "write-pressure",
+        "one case = a value and a map script of a well-behaved link with many local writes (isolated by quiescence or racing with the frames around them), output channels of 2..16 bytes on both implementations whose consumer stalls (from the start or at a point of the script) and resumes later or only at the end; end action after the stall began: none / handle.stop() (client: handle dropped) / handle dropped / consumer of the output gone (client only), often with a write right before it and one after it; one case in twelve first fills the downlink's own 8 KiB write buffer (up to 400 writes, until the handle refuses). Oracle: the callback traces as in `legal` (a stopped hosted downlink: at most one on_unlinked afterwards). What reaches the outputs is observed and counted only (`observed/output-*`: something not issued or out of order, something issued after stop, the last write before the end action missing after the consumer resumed - the statement of C08 is about the replica and the callbacks, not about local writes reaching the lane); the first witness per counter is in the notes. Non-trivial when writes were issued on both implementations and some reached the outputs; distinct by hash of flags, scripts and channel size",
+        false,
+        cases,
+        extend::write_pressure_case,
+    );
+    for w in extend::observed_witnesses() {
+        s.note(format!("write-pressure witness {w}"));
+    }
 
     s.finish()
 }
